@@ -206,12 +206,22 @@ def _apply_section(sec, head, it, data, s0, e0, what, edits, drop, tags_box, ret
             raise GenError(f"template line {tl}: spliced text is not ghost-only: {body.strip()[:80]}")
         edits.append(Edit(off, off, ("\n" if kw == "before" else " ") + body + "\n", "ins:" + kw, tl))
     elif kw == "closure":
-        k = int(w[1].rstrip(":"))
-        if k >= len(it["closures"]):
-            raise GenError(f"{what}: closure {k} not found (function has {len(it['closures'])})")
-        c = it["closures"][k]
         ms = ANCH.findall(head)
         types = [x[0] for x in ms]
+        if w[1].startswith("@"):
+            # closure identified by the beginning of its source text (robust against reordering)
+            want = types[0].replace("\\n", "\n").encode()
+            types = types[1:]
+            hits = [c_ for c_ in it["closures"] if data[c_["span"][0]:c_["span"][1]].startswith(want)]
+            if len(hits) != 1:
+                raise GenError(f"{what}: closure starting with `{want.decode()}` found {len(hits)} times")
+            c = hits[0]
+            k = it["closures"].index(c)
+        else:
+            k = int(w[1].rstrip(":"))
+            if k >= len(it["closures"]):
+                raise GenError(f"{what}: closure {k} not found (function has {len(it['closures'])})")
+            c = it["closures"][k]
         rest = head
         retn = None
         if " ret " in head:
